@@ -31,6 +31,9 @@ type Rec struct {
 	// Gate, when set, makes the first SetShareData call park (tape event "setshare-parked") until it is closed.
 	Gate  <-chan struct{}
 	gated bool
+	// OnMsgGate, when set, makes the first OnMsg call park (tape event "onmsg-parked") until it is closed: a slow handler.
+	OnMsgGate  <-chan struct{}
+	onMsgGated bool
 	// Nonce is put into every payload this instance emits: two instances of "the same" session then emit different bytes,
 	// as protocols with fresh randomness do.
 	Nonce string
@@ -124,6 +127,16 @@ func (r *Rec) Init(parties []uint16, threshold int, sendMsg func(msg []byte, isB
 }
 
 func (r *Rec) OnMsg(b []byte, from uint16, broadcast bool) {
+	r.w.Mu.Lock()
+	park := r.OnMsgGate != nil && !r.onMsgGated
+	if park {
+		r.onMsgGated = true
+	}
+	r.w.Mu.Unlock()
+	if park {
+		r.Tape.add(Event{Kind: "onmsg-parked", Node: r.Node, Party: r.Party, Session: r.Session})
+		<-r.OnMsgGate
+	}
 	r.w.Mu.Lock()
 	after := r.returned
 	if r.got == nil {
